@@ -198,6 +198,31 @@ def allSome {γ} : List (Option γ) → Option (List γ)
   | none :: _ => none
   | some a :: l => (allSome l).map (a :: ·)
 
+/-- `out[j] = v` on a vector of `numpy.empty` cells; `none` = IndexError (`j` past the last column) -/
+def setCell {β : Type} (j : Nat) (v : β) (out : List (Option β)) : Option (List (Option β)) :=
+  if j < out.length then some (out.set j (some v)) else none
+
+/-- the fill loop, transcribed: `for j,(st,sp) in enumerate(zip(hstix,hspix)): hmat[m,n,j,i] = g[st:sp].dot(u[st:sp])`
+    on one (phase, individual, trait) fibre of the `numpy.empty` array -/
+def fillLoop (g u : List α) : List (Nat × Nat) → Nat → List (Option α) → Option (List (Option α))
+  | [], _, out => some out
+  | b :: rest, j, out =>
+    match setCell j (blockVal g u b) out with
+    | none => none
+    | some out' => fillLoop g u rest (j + 1) out'
+
+/-- one fibre of `hmat = numpy.empty((m,n,nhaploblk,t))` after the loop (closed form: `hmatFibre`, proved equal
+    in Lemmas/HaploFillLoop: `hmatFibreLoop_eq`; `none` ⇔ more blocks than columns) -/
+def hmatFibreLoop (nhaploblk : Nat) (bnds : List (Nat × Nat)) (g u : List α) : Option (List (Option α)) :=
+  fillLoop g u bnds 0 (List.replicate nhaploblk none)
+
+/-- the whole matrix through the transcribed loop; `error "index"` when a fibre overflows -/
+def haplomatLoop (nhaploblk : Nat) (bnds : List (Nat × Nat)) (geno : List (List (List α)))
+    (ucols : List (List α)) : Except String (List (List (List (List (Option α))))) :=
+  match allSome (geno.map (fun gm => allSome (gm.map (fun g => allSome (ucols.map (fun u => hmatFibreLoop nhaploblk bnds g u)))))) with
+  | some H => .ok H
+  | none => .error "index"
+
 /-- block boundaries as `(start, stop)` pairs from the labels -/
 def blockBounds (hbin : List Nat) : Except String (List (Nat × Nat)) :=
   match haplobinBounds hbin with
@@ -256,6 +281,52 @@ def opvLatent (V : List (List (List α))) (nblk : Nat) (x : List Nat) : α :=
 /-- OHV subset `latentfn`: `-(1/len(x)) * ohvmat[x,:].sum(0)` for one trait -/
 def ohvLatent (ohvcol : List α) (x : List Nat) : α :=
   -(((1 : Nat) : α) / (x.length : α)) * Np.sum (x.filterMap (fun i => ohvcol[i]?))
+
+/-- OHV real / integer / binary `latentfn` for one trait:
+    `contrib = (1.0 / x.sum()) * x;  out = -contrib.dot(ohvmat)` — `x` weighs ALL cross configurations -/
+def ohvLatentW (ohvcol : List α) (x : List α) : α :=
+  -(Np.dot (x.map (fun xi => (((1 : Nat) : α) / Np.sum x) * xi)) ohvcol)
+
+/-! ### 5b. `_calc_ohvmat`: the memory-chunk loop, transcribed
+
+```
+nconfig = xmap.shape[0];  out = numpy.empty((nconfig, t));  step = nconfig if mem is None else mem
+for rst, rsp in zip(range(0, nconfig, step), srange(step, nconfig, step)):
+    out[rst:rsp, :] = ploidy * (haplomat[:, xmap[rst:rsp, :], :, :].max((0,2)).sum(1))
+```
+One trait at a time; a cell of `out` that no iteration writes stays `none` (`numpy.empty`). -/
+
+/-- Python `range(start, stop, step)` for `step ≥ 1`, with explicit fuel -/
+def rangeStepF : Nat → Nat → Nat → Nat → List Nat
+  | 0, _, _, _ => []
+  | f + 1, start, stop, step => if start < stop then start :: rangeStepF f (start + step) stop step else []
+
+/-- Python `range(start, stop, step)`, `step ≥ 1` (`stop - start` iterations always suffice) -/
+def rangeStep (start stop step : Nat) : List Nat := rangeStepF (stop - start) start stop step
+
+/-- `pybrops.core.util.subroutines.srange`: `range(start, stop, step)` followed by `stop` -/
+def srange (start stop step : Nat) : List Nat := rangeStep start stop step ++ [stop]
+
+/-- numpy slice assignment `out[rst:rsp] = vals` on a vector of possibly unwritten cells -/
+def assignSlice {β : Type} (rst rsp : Nat) (vals : List β) (out : List (Option β)) : List (Option β) :=
+  out.take rst ++ vals.map some ++ out.drop rsp
+
+/-- the `for rst, rsp in zip(...)` loop: every chunk evaluates `ohv` on its rows of the cross map -/
+def ohvmatLoop (V : List (List (List α))) (nblk : Nat) (xm : List (List Nat)) :
+    List (Nat × Nat) → List (Option α) → List (Option α)
+  | [], out => out
+  | (rst, rsp) :: rest, out =>
+    ohvmatLoop V nblk xm rest (assignSlice rst rsp ((slice rst rsp xm).map (ohv V nblk)) out)
+
+/-- `_calc_ohvmat(ploidy, haplomat, xmap, mem)` for one trait (`ploidy = haplomat.shape[0]`, as every caller
+    passes it).  `mem = none` is Python's `None`; a zero step makes `range` raise `ValueError`. -/
+def calcOhvmat (V : List (List (List α))) (nblk : Nat) (xm : List (List Nat)) (mem : Option Nat) :
+    Except String (List (Option α)) :=
+  let nconfig := xm.length
+  let step := mem.getD nconfig
+  if step = 0 then .error "value" else
+  .ok (ohvmatLoop V nblk xm (List.zip (rangeStep 0 nconfig step) (srange step nconfig step))
+        (List.replicate nconfig none))
 
 /-- `triudix(n, k)`: strictly increasing index lists (unique parents) -/
 def triudixFrom (n : Nat) : Nat → Nat → List (List Nat)
